@@ -87,6 +87,9 @@ def check(prog, ctx):
              'mathematical definition (C[i][j]=sum_k A[i][k]B[k][j], transpose, trace, norms, outer product, ...)', 24)
     ctx.rule('C04.c', 'each operator spelling delegates to its named form with the same operands', 8)
     ctx.rule('C04.d', 'shape-guard exits are diagnostic exits and dominate the element loops', 14)
+    ctx.rule('C04.e', 'magnitudes are taken in floating point: no floating-point value of the vector/matrix code passes through the integer '
+             'abs() (an unqualified abs(double) resolves to int abs(int) and truncates: every entry below 1 becomes 0)', 1)
+    ctx.sub('integer_abs', integer_abs, prog, ctx)
     wrappers = G.find_wrappers(prog)
     for inst in INSTANCES:
         if inst.get('c04'):
@@ -95,6 +98,26 @@ def check(prog, ctx):
     ctx.sub('copy_completeness', copy_completeness, prog, ctx)
     ctx.sub('schemas', schemas, prog, ctx)
     ctx.sub('spellings', spellings, prog, ctx)
+
+
+def integer_abs(prog, ctx):
+    from ..ir import all_exprs
+    n = 0
+    bad = []
+    for fn in prog.repo_functions():
+        if fn.body is None or not fn.file.endswith('Linear_Algebra.cpp'):
+            continue
+        for e in all_exprs(fn):
+            if e.get('k') == 'Call' and (e.get('callee') or {}).get('name') in ('abs', 'labs', 'llabs', 'fabs', 'fabsf'):
+                n += 1
+                sig = (e.get('callee') or {}).get('sig', '')
+                if sig.startswith(('abs(int)', 'labs(long)', 'llabs(long long)')) and any(a.get('k') == 'Cast' and a.get('ck') == 'FloatingToIntegral' for a in e.get('args', [])):
+                    bad.append((fn, e))
+    for fn, e in bad:
+        ctx.violated('C04.e', '%s:integer-abs' % fn.q.replace(L, ''), fn, '%s is the integer abs(): its floating-point argument is truncated first, so every value of magnitude below 1 '
+                     'counts as 0 (and 2.7 as 2)' % show(e)[:50], witness={'reproducer': 'entries of magnitude below 1, e.g. Matrix({{0.5}})'}, line=e.get('l'))
+    if not bad:
+        ctx.holds('C04.e', 'Linear_Algebra:integer-abs', None, '%d magnitude calls in Linear_Algebra.cpp, none through the integer abs()' % n)
 
 
 def vector_size_invariant(prog, ctx):
